@@ -87,7 +87,9 @@ def run_case(case: dict) -> dict:
                 model.get_fluxes(st, t)
                 model.get_args(st, t)
                 model.get_args(st, t, include_readouts=True)
-                model.get_stoichiometries(st, t)
+                tab_ = model.get_stoichiometries(st, t)
+                for v_ in [r_ for r_ in tab_.index if (tab_.loc[r_] != 0).any()]:  # (a variable no reaction touches has no table of its own)
+                    model.get_stoichiometries_of_variable(v_, st, t)
         frame = pd.DataFrame(
             [rm.random_state(ref, rng) for _ in range(3)],
             index=[0.0, 0.5, 2.25],
@@ -128,7 +130,9 @@ def run_case(case: dict) -> dict:
                 y = [ref2.initial_conditions()[v] if st is None else st[v] for v in ref2.variables]
                 model(t, y)
                 model.get_right_hand_side(st, t)
-                model.get_stoichiometries(st, t)
+                tab_ = model.get_stoichiometries(st, t)
+                for v_ in [r_ for r_ in tab_.index if (tab_.loc[r_] != 0).any()]:  # (a variable no reaction touches has no table of its own)
+                    model.get_stoichiometries_of_variable(v_, st, t)
                 model.get_fluxes(st, t)
             updated = 1
         if case.get("integrate"):
